@@ -71,6 +71,7 @@ type tenure struct {
 	expires              time.Time
 	active               bool // task is inside the critical section
 	hung                 bool // a renewal call of this tenure is hanging in the storage (fault) for >= lease/4
+	lostStreak           int  // consecutive renewal requests of this tenure that the storage did not answer
 	unlocked             bool // Unlock has returned
 	unlockAt             time.Time
 	afterUnlockCalls     int
@@ -79,6 +80,7 @@ type tenure struct {
 }
 
 type taskState struct {
+	deadCtxSteps  int // own steps taken when the context of the current attempt was first seen done (-1: live)
 	name          string
 	locker        int
 	prov          *provider
@@ -185,6 +187,9 @@ func (s *simStore) gate(ctx context.Context, kind string, renew bool) (execute b
 		}
 	}
 	if w.partitioned[s.node] {
+		if renew && ten != nil {
+			ten.lostStreak++
+		}
 		w.e.FaultFired("partition_request_lost")
 		w.e.Logf("st n%d %s#%d partitioned", s.node, kind, ord)
 		return false, false, s.inj()
@@ -192,6 +197,9 @@ func (s *simStore) gate(ctx context.Context, kind string, renew bool) (execute b
 	if f, ok := s.fault(seam, ord); ok {
 		switch f.Kind {
 		case "req_lost":
+			if renew && ten != nil {
+				ten.lostStreak++
+			}
 			w.e.FaultFired(seam + "_request_lost")
 			w.e.Logf("st n%d %s#%d request lost", s.node, kind, ord)
 			return false, false, s.inj()
@@ -382,6 +390,26 @@ func errStr(err error) string {
 	return "error(" + err.Error() + ")"
 }
 
+// causeCtx reports the canceller's own error once its parent is done.
+type causeCtx struct {
+	context.Context
+	cause error
+}
+
+func (c causeCtx) Err() error {
+	if c.Context.Err() != nil {
+		return c.cause
+	}
+	return nil
+}
+
+var ctxCauses = []error{
+	fmt.Errorf("superseded by a newer request: %w", errors.ErrExist),
+	fmt.Errorf("the job is gone: %w", errors.ErrNotExist),
+	fmt.Errorf("lost the election: %w", errors.ErrConflict),
+	stderrors.New("caller gave up"),
+}
+
 func isInjected(err error) bool {
 	for _, ie := range injErrs {
 		if stderrors.Is(err, ie) {
@@ -463,6 +491,7 @@ func (w *world) onCas(req kvs.Record, res kvs.Record, err error, unlockedAtInvok
 			w.e.Violate("C05", "renewal_after_unlock_succeeded", "a renewal of tenure #%d of %s issued after its Unlock had returned succeeded: it changed the record", t.id, t.task)
 		}
 		t.version = res.Version
+		t.lostStreak = 0
 		if req.ExpiresAt != nil {
 			t.expires = *req.ExpiresAt
 		}
@@ -785,6 +814,12 @@ func (w *world) acquire(ts *taskState, lk gsync.Locker, op sim.Op, i int) {
 				cn()
 			}, nil)
 		}
+		if k := w.c.Knob("ctx_cause", 0); k > 0 {
+			// a context that ends with an error of the caller's own (golibs' context.WithCancelError,
+			// context.WithCancelCause wrappers): Err() is whatever the canceller said, possibly an
+			// error of a class the library gives a meaning to
+			ctx = causeCtx{ctx, ctxCauses[int(k)%len(ctxCauses)]}
+		}
 		err = lk.LockWithCtx(ctx)
 		ok = err == nil
 	}
@@ -841,6 +876,11 @@ func (w *world) acquire(ts *taskState, lk gsync.Locker, op sim.Op, i int) {
 		e.Logf("%s unlocked", ts.name)
 	} else if op.K == "lockctx" && w.prop() == "C04" {
 		isCtx := stderrors.Is(err, context.Canceled) || stderrors.Is(err, context.DeadlineExceeded)
+		for _, ce := range ctxCauses {
+			if w.c.Knob("ctx_cause", 0) > 0 && stderrors.Is(err, ce) {
+				isCtx = true
+			}
+		}
 		isClosed := errors.Is(err, errors.ErrClosed)
 		switch {
 		case !ctxDone && !shutNow:
@@ -903,7 +943,33 @@ func (w *world) die(ts *taskState) {
 
 // ---------------------------------------------------------------------------
 
+// spinCheck: an attempt whose context has ended gives up within a handful of its own steps
+// (it hands the local token back and returns). One that keeps taking steps - thousands of
+// them - without returning is in a busy loop: in a simulation that shows as an exhausted step
+// budget, which is no verdict, so it is named here.
+func (w *world) spinCheck(e *sim.Env) {
+	if w.prop() != "C04" {
+		return
+	}
+	for _, ts := range w.tasks {
+		if !ts.acquiring || ts.ctxLive == nil || ts.ctxLive() {
+			ts.deadCtxSteps = -1
+			continue
+		}
+		n := e.RT.StepsOf(ts.name)
+		if ts.deadCtxSteps < 0 {
+			ts.deadCtxSteps = n
+			continue
+		}
+		if n-ts.deadCtxSteps > 20000 {
+			e.Violate("C04", "cancel_not_honoured", "%s: LockWithCtx has taken %d scheduling steps of its own since its context ended and has not returned: it spins instead of giving up", ts.name, n-ts.deadCtxSteps)
+			ts.deadCtxSteps = n
+		}
+	}
+}
+
 func (w *world) Invariant(e *sim.Env) {
+	w.spinCheck(e)
 	now := time.Now()
 	switch w.prop() {
 	case "C01", "C04":
@@ -919,6 +985,13 @@ func (w *world) Invariant(e *sim.Env) {
 			for _, name := range sim.SortedKeys(w.curTen) {
 				t := w.curTen[name]
 				if !t.active || t.hung {
+					continue
+				}
+				if t.lostStreak >= 4 {
+					// the renewal schedule (T/2, then every T/8) fits four attempts into the second half
+					// of a lease: when all four went unanswered the storage did not answer for that tenure
+					w.voided = true
+					e.Void("four consecutive renewal requests of the holder were lost: the storage did not answer, lease keeping not judged")
 					continue
 				}
 				rec, ok := w.be.Peek(lockKey)
